@@ -123,7 +123,17 @@ def oracle_diff(case, ctx):
 
 def strat_file(tier):
     return st.fixed_dictionaries({'cfgs': st.lists(configs.config_s(), min_size=2, max_size=3), 'seed': gen.seed_s,
-                                  'actions': st.lists(st.integers(0, 7), min_size=3, max_size=20), 'corrupt_last': st.booleans()})
+                                  'actions': st.lists(st.integers(0, 7), min_size=3, max_size=20), 'corrupt_last': st.booleans(),
+                                  'stamp': st.sampled_from(['natural', 'natural', 'preserved', 'older'])})
+
+
+def restamp(path, how, k):
+    """what a file's modification time says is not part of the property: files replaced by `cp -p`, `rsync -t`, an archive
+    extraction or a checkout keep or even lower their timestamp"""
+    if how == 'preserved':
+        os.utime(path, (1_600_000_000, 1_600_000_000))
+    elif how == 'older':
+        os.utime(path, (1_600_000_000 - 1000 * k, 1_600_000_000 - 1000 * k))
 
 
 def oracle_file(case, ctx):
@@ -136,6 +146,7 @@ def oracle_file(case, ctx):
             data = configs.data_of(cfg)
             with open(path, 'w') as f:
                 yaml.safe_dump(data, f)
+            restamp(path, case.get('stamp', 'natural'), k)
             env = guarded(ctx, f'factory_env_from_yaml (file holding {cfg["base"]} {cfg["mods"]})', factory_env_from_yaml, path)
             ref = factory_env_from_data(copy.deepcopy(data))
             env.set_seed(case['seed'])
@@ -149,6 +160,7 @@ def oracle_file(case, ctx):
             data['reset_function']['name'] = 'no_such_reset'
             with open(path, 'w') as f:
                 yaml.safe_dump(data, f)
+            restamp(path, case.get('stamp', 'natural'), len(case['cfgs']))
             try:
                 factory_env_from_yaml(path)
             except (SchemaError, ValueError):
@@ -157,7 +169,7 @@ def oracle_file(case, ctx):
                 ctx.fail(f'a file naming an unknown reset function raised {type(e).__name__}', {'kind': 'yaml_file'})
             else:
                 ctx.fail('a file naming an unknown reset function was built (stale content of the same path?)', {'kind': 'yaml_file'})
-    ctx.ev.case(case, nt=True, classes=['rewritten_path'] + (['corrupted_rewrite'] if case['corrupt_last'] else []))
+    ctx.ev.case(case, nt=True, classes=['rewritten_path', 'mtime:' + case.get('stamp', 'natural')] + (['corrupted_rewrite'] if case['corrupt_last'] else []))
 
 
 # ------------------------------------------------------------------ (5) factory(name, **kw) == registry[name](..., **accepted kw)
@@ -230,7 +242,9 @@ def strat_factory(draw, tier):
         if name == 'crossing':
             kw['object_type'] = 'Wall'
     extra = draw(st.dictionaries(st.sampled_from(['random_agent', 'bogus', 'reward', 'shape_', 'object_types', 'threshold_']), st.sampled_from([0, 1.5, True, False, 'x']), max_size=2))
-    return {'kind': kind, 'name': name, 'kw': kw, 'extra': extra, 'state': sd, 'action': draw(gen.action_s), 'seed': draw(gen.seed_s)}
+    # the order in which a caller (or a YAML mapping) lists the parameters is arbitrary: accepted and unaccepted ones interleaved
+    order = draw(st.permutations(sorted(set(kw) | set(extra))))
+    return {'kind': kind, 'name': name, 'kw': kw, 'extra': extra, 'order': list(order), 'state': sd, 'action': draw(gen.action_s), 'seed': draw(gen.seed_s)}
 
 
 def _real_kw(kw):
@@ -250,7 +264,10 @@ def oracle_factory(case, ctx):
     accepted = set(inspect.signature(f).parameters)
     kw = _real_kw(case['kw'])
     extra = {k: v for k, v in case['extra'].items() if k not in accepted}
-    made = guarded(ctx, f'{kind} factory({name}, {sorted(case["kw"])} + unaccepted {sorted(extra)})', factory, name, **kw, **extra)
+    merged = {**extra, **kw}
+    order = [k for k in case.get('order', []) if k in merged] + [k for k in merged if k not in case.get('order', [])]
+    given = {k: merged[k] for k in order}
+    made = guarded(ctx, f'{kind} factory({name}, parameters in the order {order}; unaccepted {sorted(extra)})', factory, name, **given)
     sd, a = case['state'], objs.action(case['action'])
     s = objs.build_state(sd)
     from gym_gridverse.envs.transition_functions import transition_with_copy
@@ -296,7 +313,10 @@ def oracle_factory(case, ctx):
     else:
         ctx.fail(f'{kind} factory accepted the unknown name "{name}_nope"', {'kind': 'factory_reject'})
     falsy = any(isinstance(v, (int, float)) and not isinstance(v, bool) and v == 0 for v in case['kw'].values()) or any(v is False for v in case['kw'].values())
-    ctx.ev.case(case, nt=bool(extra) or falsy, classes=['kind:' + kind, f'name:{kind}:{name}'] + (['unaccepted_param'] if extra else []) + (['falsy_param'] if falsy else []))
+    sig_order = [k for k in inspect.signature(f).parameters if k in kw]
+    shuffled = [k for k in order if k in kw] != sig_order or (bool(extra) and order and order[0] in extra)
+    ctx.ev.case(case, nt=bool(extra) or falsy, classes=['kind:' + kind, f'name:{kind}:{name}'] + (['unaccepted_param'] if extra else []) + (['falsy_param'] if falsy else [])
+                + (['parameters_out_of_signature_order'] if shuffled else []))
 
 
 # ------------------------------------------------------------------ (6) corruptions are rejected
@@ -407,12 +427,12 @@ CHECKS = [
     Check('differential_perturbed', oracle_diff, strategy=strat_diff, examples={'quick': 100, 'thorough': 300}, shards={'quick': 8, 'thorough': 16},
           rule='valid perturbations (non-square shapes, other counts, colour subsets, re-ordered action sub-lists, extra/reversed transitions, other observation functions/areas, scaled rewards) x seeds x generated action lists',
           required=['perturbed', 'mod:reset', 'mod:actions', 'mod:reverse_transitions', 'mod:vis']),
-    Check('yaml_files', oracle_file, strategy=strat_file, examples={'quick': 15, 'thorough': 60}, shards={'quick': 4, 'thorough': 16},
-          rule='2-3 (perturbed) configurations written one after the other to the same path and built with factory_env_from_yaml: each build behaves like the data the file holds now; a corrupted rewrite is rejected',
-          required=['rewritten_path', 'corrupted_rewrite']),
+    Check('yaml_files', oracle_file, strategy=strat_file, examples={'quick': 20, 'thorough': 60}, shards={'quick': 4, 'thorough': 16},
+          rule='2-3 (perturbed) configurations written one after the other to the same path (modification time natural, preserved or lowered) and built with factory_env_from_yaml: each build behaves like the data the file holds now; a corrupted rewrite is rejected',
+          required=['rewritten_path', 'corrupted_rewrite', 'mtime:preserved', 'mtime:older']),
     Check('component_factories', oracle_factory, strategy=strat_factory, examples={'quick': 400, 'thorough': 1200}, shards={'quick': 4, 'thorough': 16},
-          rule='factory(name, **kw) for all six component kinds with accepted, unaccepted and falsy-valued parameters == underlying function with the accepted parameters; missing required / unknown name -> ValueError',
-          required=['unaccepted_param', 'falsy_param'] + [f'name:{k}:{n}' for k, (_, reg) in FACTORIES.items() for n in BUILTIN_NAMES[k]]),
+          rule='factory(name, **kw) for all six component kinds with accepted, unaccepted and falsy-valued parameters listed in an arbitrary order == underlying function with the accepted parameters; missing required / unknown name -> ValueError',
+          required=['unaccepted_param', 'falsy_param', 'parameters_out_of_signature_order'] + [f'name:{k}:{n}' for k, (_, reg) in FACTORIES.items() for n in BUILTIN_NAMES[k]]),
     Check('corruptions', oracle_corrupt, enumerate=enum_corrupt, shards={'quick': 8, 'thorough': 16}, exhaustive=True,
           rule='every shipped file x every systematic corruption (unknown component names at every position, each required parameter deleted, missing sections, malformed shapes/layouts, unknown/duplicate/empty colours, objects and actions, unknown object types and distance functions): SchemaError or ValueError'),
 ]
